@@ -17,7 +17,7 @@ def swarm(rng):
                 "n_hist": rng.choice([0, 6, 12]), "p_objref": rng.choice([0.0, 0.3]), "p_mirror": 0.4, "p_fnref": rng.choice([0.0, 0.15]),
                 "p_sformula": rng.choice([0.3, 0.6]), "p_uncached": rng.choice([0.0, 0.3]), "recalc": False,
                 "max_depth": rng.choice([2, 3]), "n_queries": rng.choice([8, 14, 20]), "export_refs_in_formula": False,
-                "p_item_eval": 0.75, "simple_cond": True, "export_subset": True, "split_ref_names": True, "clash": False, "ancestor_params": True, "nested_item_eval": True,
+                "p_item_eval": 0.75, "simple_cond": True, "export_subset": True, "split_ref_names": True, "clash": False, "ancestor_params": True, "p_comp_shadow": rng.choice([0.0, 0.5]), "nested_item_eval": True,
                 "prefer_read": rng.choice([["ancestor_param", "space_param"], ["attr_model", "attr_other"], []])})
     if cfg["p_objref"]:
         # relative references in ItemSpaces are a documented limitation of the exporter: object-valued references are
